@@ -18,12 +18,11 @@ def support (vals : List Validator) (wl : List Nat) (vclaims : List (Nat × Cont
 def total (vals : List Validator) (wl : List Nat) : Nat :=
   ((vals.filter (fun v => v.bonded && inWhiteList wl v.id)).map (·.power)).sum
 
-/-- the threshold clause: a successful prophecy has `consensusDen · support(final) ≥ consensusNum · total`
-    (10·p ≥ 7·t) and a positive total -/
+/-- the threshold clause of the property (70 %, whatever constant the code uses): a successful prophecy has
+    `10 · support(final) ≥ 7 · total` and a positive total -/
 def thresholdMet (vals : List Validator) (wl : List Nat) (p : Prophecy) : Bool :=
   p.status != .success ||
-    (decide (BridgeConsts.consensusNum * total vals wl ≤ BridgeConsts.consensusDen * support vals wl p.vclaims p.final)
-      && decide (0 < total vals wl))
+    (decide (7 * total vals wl ≤ 10 * support vals wl p.vclaims p.final) && decide (0 < total vals wl))
 
 /-- Well-formed tally: claim contents are distinct keys, every validator occurs at most once over all claim
     groups (a validator counts at most once per prophecy), and the two maps agree. -/
